@@ -348,22 +348,36 @@ func runC04(env *Env) {
 	}
 	// many instances of one document at the same time, each with its own value: every token is routed by ITS conditions
 	// (start -> exclusive gateway -> end_i guarded by want == i, four ways, no default)
-	{
+	// tokens = 1: one token per instance; tokens = 3: a fork sends three tokens into the gateway at the same moment
+	// (their ids drawn one right after the other), every one of them routed on its own
+	for _, tokens := range []int{1, 3} {
 		p := &Prog{}
 		p.Node("start", "start")
 		p.Node("xor", "S")
-		p.Flow("start", "S", "")
+		if tokens == 1 {
+			p.Flow("start", "S", "")
+		} else {
+			p.Node("par", "F")
+			p.Flow("start", "F", "")
+			for i := 0; i < tokens; i++ {
+				p.Flow("F", "S", "")
+			}
+		}
 		for i := 0; i < 4; i++ {
 			p.Node("end", fmt.Sprintf("e%d", i))
-			p.Flow("S", fmt.Sprintf("e%d", i), fmt.Sprintf("want == %d", i))
+			cond := fmt.Sprintf("want == %d", i)
+			if tokens > 1 {
+				cond = fmt.Sprintf("want < 0 or (want * 2 + 1 > 10 and want %% 2 == 0) or (want > 100 and want - %d > 7) or want == %d", i, i)
+			}
+			p.Flow("S", fmt.Sprintf("e%d", i), cond)
 		}
 		defs, err := ParseDefs(p.XML(""))
 		must(err)
-		instances := 2400
+		instances := 2400 / tokens
 		if env.Thorough() {
-			instances = 24000
+			instances = 24000 / tokens
 		}
-		cs := fmt.Sprintf("%d instances of start -> exclusive gateway -> 4 end events guarded by want == i, 12 at a time, each with its own value of want", instances)
+		cs := fmt.Sprintf("%d instances of start -> exclusive gateway -> 4 end events guarded by want == i, 12 at a time, each with its own value of want, %d token(s) per instance, ids from the engine's default generator in every other instance", instances, tokens)
 		env.Current(cs)
 		var procElem *schema.Process
 		for i := range *defs.Processes() {
@@ -383,7 +397,11 @@ func runC04(env *Env) {
 					}
 					want := int(k % 4)
 					ctx, cancel := context.WithCancel(context.Background())
-					inst, err := bpmn.NewProcess(procElem, defs, bpmn.WithContext(ctx), bpmn.WithIdGenerator(sharedGen), bpmn.WithVariables(map[string]any{"want": want}))
+					opts := []bpmn.Option{bpmn.WithContext(ctx), bpmn.WithVariables(map[string]any{"want": want})}
+					if k%8 < 4 {
+						opts = append(opts, bpmn.WithIdGenerator(sharedGen))
+					}
+					inst, err := bpmn.NewProcess(procElem, defs, opts...)
 					must(err)
 					ch := inst.Tracer().SubscribeChannel(make(chan tracing.ITrace, 128))
 					must(inst.StartAll(ctx))
@@ -412,7 +430,11 @@ func runC04(env *Env) {
 						}
 					}
 					cancel()
-					if len(got) != 1 || got[0] != fmt.Sprintf("e%d", want) {
+					good := len(got) == tokens
+					for _, g := range got {
+						good = good && g == fmt.Sprintf("e%d", want)
+					}
+					if !good {
 						atomic.AddInt64(&wrong, 1)
 						first.CompareAndSwap(nil, fmt.Sprintf("want = %d: reached %v", want, got))
 					}
